@@ -113,7 +113,18 @@ def main():
             {'greet': lambda n: (print('Hello, ' + n + '!'), print('Welcome.')), 'quiet': lambda n: None}[fn_name](arg)
         rec = {'spec': spec, 'plain_output': buf.getvalue(), 'verdicts': {}}
         for name in OUT + RX:
-            for mode in ('inline', 'stale'):
+            for mode in ('inline', 'stale', 'inblock'):
+                if mode == 'inblock':
+                    # inside an open command block, after another execution of the block printed something else
+                    with S.CommandBlock():
+                        S.call('greet', 'Zed')
+                        S.call('quiet', 'q')
+                        execution = S.call(fn_name, arg)
+                        if name in RX:
+                            rec['verdicts'][name + ':' + mode] = run_assert(name, [text, execution])
+                        else:
+                            rec['verdicts'][name + ':' + mode] = run_assert(name, [execution, text], {'exact_strings': exact})
+                    continue
                 execution = S.call(fn_name, arg)
                 if mode == 'stale':
                     for other in later:
